@@ -405,8 +405,53 @@ def writes_unconditional(model: Model, run: Run, rule: str = "S8-every-write-rea
     run.floor("write_* methods of the writer classes", n, 4)
 
 
+def exit_does_not_swallow(model: Model, run: Run, rule: str = "S10-leaving-a-block-does-not-swallow-errors") -> None:
+    """S10: __exit__ of a package class returns nothing (or a constant false value).  A true return value tells the `with`
+    statement to suppress the exception in flight: a value that failed to encode inside a `with writer.push_sequence():`
+    block would be dropped silently and the enclosing message emitted without it."""
+    n = 0
+    for cq, c in sorted(model.classes.items()):
+        ex = c.methods.get("__exit__")
+        if ex is None or isinstance(ex.node, ast.Lambda):
+            continue
+        n += 1
+        seen = set()
+
+        def truthy_returns(fi, depth=0):
+            """returns of fi (followed through `return self.m()`) whose value may be true"""
+            out = []
+            if fi.qualname in seen or depth > 3:
+                return out
+            seen.add(fi.qualname)
+            for r in walk_no_nested(fi.node):
+                if not isinstance(r, ast.Return) or r.value is None:
+                    continue
+                v = r.value
+                if isinstance(v, ast.Constant):
+                    if v.value:
+                        out.append((fi, r))
+                    continue
+                if isinstance(v, ast.Call) and isinstance(v.func, ast.Attribute) and isinstance(v.func.value, ast.Name) and v.func.value.id == "self":
+                    mt = model.find_method(cq, v.func.attr)
+                    if mt is not None and not isinstance(mt.node, ast.Lambda):
+                        out += truthy_returns(mt, depth + 1)
+                        continue
+                if any(isinstance(x, ast.Name) and x.id in fi.params()[1:] for x in ast.walk(v)):
+                    raise AnalysisError(f"{fi.qualname}: the value returned to the with statement depends on the exception passed in: not decided")
+                out.append((fi, r))
+            return out
+        bad = truthy_returns(ex)
+        run.ob(rule, not bad, {"class": cq.split("sansldap.")[-1]})
+        for fi, r in bad[:2]:
+            run.fail(Finding(rule, ex.qualname, f"{fi.name}|{norm(r)[:60]}", f"{cq.split('sansldap.')[-1]}.__exit__ can hand `{norm(r.value)[:50]}` back to the with statement"
+                             f"{' (through ' + fi.name + ')' if fi is not ex else ''}: a true value suppresses the exception raised inside the block, so a failed write is silently left out",
+                             model.loc(fi.module, r)))
+    run.floor("context manager classes", n, 1)
+
+
 def constructed_flush(model: Model, run: Run) -> None:
     writes_unconditional(model, run)
+    exit_does_not_swallow(model, run)
     writer_factories(model, run)
 
     """S6: when a nested writer is closed, the packing routine receives the three fields of the tag the writer was opened
